@@ -132,10 +132,8 @@ def _identity_holds(lhs, rhs):
     d = z3.simplify(lhs - rhs, som=True)
     if z3.is_rational_value(d):
         return d.numerator_as_long() == 0
-    s = z3.Solver()
-    s.set('timeout', 5000)
-    s.add(lhs != rhs)
-    return guarded_check(s, 5000) == z3.unsat
+    from .core import hard_check
+    return hard_check([], lhs != rhs, 5000)[0] == 'unsat'
 
 
 def cert_prove(hyps, goal, budget_s=20.0):
@@ -326,8 +324,8 @@ def sqrt_cut(t, E, budget_s=3.0, max_nodes=400):
     ok, info = cert_prove(hyps, t.z == Sz * Sz, budget_s=budget_s * 2)
     if not ok:
         # direct z3 attempt (cheap identity cases)
-        s = z3.Solver(); s.set('timeout', 2000); s.add(*hyps); s.add(t.z != Sz * Sz)
-        ok = s.check() == z3.unsat
+        from .core import hard_check
+        ok = hard_check(hyps, t.z != Sz * Sz, 2000)[0] == 'unsat'
     SQRT_LOG.append(('cut', str(S)[:60], ok))
     E.stats['sqrt_cuts'] = E.stats.get('sqrt_cuts', 0) + (1 if ok else 0)
     if not ok:
